@@ -1,6 +1,6 @@
 @unit ics20
-@shim core.rs cw_utils.rs cw2.rs std_adapters.rs cw_controllers.rs ibc.rs
-@properties C11 C12 C18
+@shim core.rs cw_utils.rs cw2.rs std_adapters.rs cw_controllers.rs ibc.rs range.rs
+@properties C11 C12 C18 C20
 
 // ===================================================================== data and state
 @struct packages/cw20/src/coin.rs Cw20Coin
@@ -618,3 +618,35 @@ pub proof fn lemma_c18_step(s: Raw, t: Raw, sender: Addr, funds: Seq<Coin>, msg:
         ExecuteMsg::UpdateAdmin { admin } => { assert(unpath(allow_key(a)) != unpath(item_key("admin"@))); }
     }
 }
+
+
+// ===================================================================== C20: allow-list listing
+@struct contracts/cw20-ics20/src/msg.rs ListAllowedResponse
+@struct contracts/cw20-ics20/src/msg.rs AllowedInfo
+@const contracts/cw20-ics20/src/contract.rs MAX_LIMIT
+@const contracts/cw20-ics20/src/contract.rs DEFAULT_LIMIT
+@include inc/paging.vsi
+pub open spec fn str_cursor(c: Option<String>) -> Option<Seq<u8>> { match c { Some(s) => Some(utf8(s@)), None => None } }
+
+@fn contracts/cw20-ics20/src/contract.rs list_allowed [closures: 2]
+@ensures C20.list_allowed_page
+    r is Ok ==> ({
+        let pg = page(listing(deps.storage.view(), "allow_list"@, Seq::<u8>::empty(), false), str_cursor(start_after), limit);
+        r->Ok_0.allow@.len() == pg.len() && forall|i: int| 0 <= i < pg.len() ==> utf8((#[trigger] r->Ok_0.allow@[i]).contract@) == pg[i].0
+            && AllowInfo::de(pg[i].1) == Some(AllowInfo { gas_limit: r->Ok_0.allow@[i].gas_limit })
+    })
+@eta "addr.as_ref().map" 1
+    __c: &Addr -> Bound<&Addr>
+@closure_types 1
+    item: StdResult<(Addr, AllowInfo)>
+@closure 1 C20.list_allowed_map
+    (res: StdResult<AllowedInfo>)
+    ensures match item { Ok((a, w)) => res is Ok && res->Ok_0.contract@ == a@ && res->Ok_0.gas_limit == w.gas_limit, Err(_) => res is Err }
+@closure_types 2
+    __p2_0: (Addr, AllowInfo)
+@closure 2 C20.list_allowed_entry
+    (res: AllowedInfo)
+    ensures res.contract@ == __p2_0.0@ && res.gas_limit == __p2_0.1.gas_limit
+@prefix
+    broadcast use string_conv;
+@end
